@@ -188,6 +188,9 @@ def cases(tier, seed):
                 out.append({"problem": problem, "prog": prog, "mesh": "base", "ground": GROUNDS[problem][0], "orphan": False, "resol": "elim", "mode": mode,
                             "krylov": "cg", "homog": True})
     out.append({"kind": "solver_set"})
+    # hinged connection of two beam members in 2D and in 3D (default = every rotation released, or the named axis released)
+    for dim, kw in ((2, {}), (3, {}), (3, {"unknowns": ["rz"]})):
+        out.append({"kind": "hinge", "dim": dim, "kwargs": kw})
     # conditions entered in stages on one live simulation holding Lagrange conditions / connections
     for problem in ("elastic", "thermal", "beam"):
         for resol in [r for r in RESOLS[problem] if r != "elim"]:
@@ -898,7 +901,44 @@ def _run_resolve(case):
     return {"violations": v, "fingerprint": fp("resolve", problem, resol, *obs), "nontrivial": len(obs) >= 3, "transitions": ntr, "outcome": "violation" if v else "ok"}
 
 
+def _run_hinge(case):
+    """two collinear members A-B, B-C clamped at A and C, joined at B by add_connection_hinged, force on B: each member is a cantilever
+    carrying half the force (closed form); the rotation about the released axis jumps across the hinge"""
+    from EasyFEA import ElemType, Mesher, Models, Simulations
+    from EasyFEA.Geoms import Domain, Line, Point
+
+    dim, kwargs = case["dim"], dict(case["kwargs"])
+    E, nu, L, F = 210.0, 0.3, 10.0, -0.1
+    key = dict(kind="hinge", dim=dim, released=",".join(kwargs.get("unknowns", ["default"])))
+    with contextlib.redirect_stdout(io.StringIO()):
+        section = Mesher().Mesh_2D(Domain(Point(-0.5, -1.0), Point(0.5, 1.0)))
+        b1 = Models.Beam.Isotropic(dim, Line(Point(0, 0), Point(L, 0), L / 2), section, E, nu)
+        b2 = Models.Beam.Isotropic(dim, Line(Point(L, 0), Point(2 * L, 0), L / 2), section, E, nu)
+        simu = Simulations.Beam(Mesher().Mesh_Beams([b1, b2], ElemType.SEG2), Models.Beam.BeamStructure([b1, b2]))
+        mesh = simu.mesh
+        unk = simu.Get_unknowns()
+        nA, nB, nC = (mesh.Nodes_Point(Point(x, 0)) for x in (0, L, 2 * L))
+        simu.add_dirichlet(nA, [0.0] * len(unk), unk)
+        simu.add_dirichlet(nC, [0.0] * len(unk), unk)
+        simu.add_connection_hinged(nB, **kwargs)
+        simu.add_neumann(nB[:1], [F], ["y"])
+        u = np.asarray(simu.Solve(), dtype=float).reshape(mesh.Nn, -1)
+    uy_hinge = F / 2 * L ** 3 / (3 * E * b1.Iz)
+    jump_hinge = 2 * abs(F / 2 * L ** 2 / (2 * E * b1.Iz))
+    uy, jump = u[nB[0], 1], abs(u[nB[0], -1] - u[nB[1], -1])
+    v = []
+    if abs(uy - uy_hinge) > 1e-8 * abs(uy_hinge) or abs(jump - jump_hinge) > 1e-8 * jump_hinge:
+        v.append(viol("hinge_transmits_moment", f"{dim}D add_connection_hinged({kwargs or ''}): deflection of the hinge {uy:.6e} (two cantilevers: {uy_hinge:.6e}; "
+                                                f"welded members: {F * (2 * L) ** 3 / (192 * E * b1.Iz):.6e}), jump of rz across the hinge {jump:.3e} (closed form {jump_hinge:.3e})", **key))
+    for a in range(dim):
+        if abs(u[nB[0], a] - u[nB[1], a]) > 1e-12 * abs(uy_hinge):
+            v.append(viol("constraint", f"{dim}D hinge: translation {a} differs across the connection", **key))
+    return {"violations": v, "fingerprint": fp("hinge", case, u), "nontrivial": True, "transitions": 2, "outcome": "violation" if v else "ok"}
+
+
 def run_case(case):
+    if case.get("kind") == "hinge":
+        return _run_hinge(case)
     if case.get("kind") == "resolve":
         return _run_resolve(case)
     if case.get("kind") == "reuse":
